@@ -13,6 +13,9 @@ class by class, and with a from-scratch reachability walk of the graph:
   item    item-level mutation of an intermediate container: legacy0 called <=>
           observe delivered a container event ('.'), everybody silent (':')
   after-remove  no call from anybody
+  multi   further owner objects register bound methods under the same names;
+          all live owners log the same calls; collecting one owner leaves the
+          others' registrations fully working and removable
   stale   a container object replaced by an assignment (the caller kept a
           reference) is unreachable: mutating it and changing leaves of objects
           only reachable through it is silent for everybody
@@ -20,7 +23,9 @@ class by class, and with a from-scratch reachability walk of the graph:
 Every step is followed by a probe phase that changes the final attribute on
 every node of the tree and on recently detached nodes.  See DESIGN.md 4 / C16.
 """
+import gc
 import itertools
+import weakref
 
 from traits.api import (
     Any, HasTraits, Int, Instance, List, Dict, Set, Str, push_exception_handler,
@@ -41,8 +46,12 @@ META = {
              "/ bound methods) x node flavour (plain identity-equal nodes / nodes with value "
              "equality by a tag, so that links and whole containers get replaced by distinct but "
              "EQUAL objects / nodes whose links have dynamic defaults creating fresh children, "
-             "left unread until the listeners' own hook-up materialises them; plus a 4% stratum "
-             "of its own for value-equal whole-dict replacements, an open finding) x random tree x 16-20 (thorough: 16-28) random operations (link reassignment to fresh subtree / None, "
+             "left unread until the listeners' own hook-up materialises them; plus a 5% stratum "
+             "of its own for value-equal whole-dict replacements, finding F44) x in a 9% stratum "
+             "1-2 FURTHER handler owners whose bound methods are registered under the same names "
+             "on the same root through both APIs and which are dropped and collected while the "
+             "registration stands (every live owner must log exactly what the primary logs; the "
+             "survivors must keep following the graph and stop on removal) x random tree x 16-20 (thorough: 16-28) random operations (link reassignment to fresh subtree / None, "
              "whole-container assignment, every mutating list/dict/set method, re-insertion of a "
              "detached subtree root, on attached on-path, attached off-path and detached nodes; "
              "mutation - mostly insertion of fresh subtrees - of a container OBJECT that an earlier "
@@ -69,7 +78,11 @@ META = {
                   "stale_hot_ops_silent": 800, "stale_nonvacuous_silent": 12000,
                   # value-equal nodes: distinct-but-equal replacements of on-path links
                   "eq_equal_replacements_onpath": 600, "link_equal_silent_matched": 500,
-                  "eqd_patterns_drawn": 30,
+                  "eqd_patterns_drawn": 100,
+                  # several handler owners under the same names, some collected mid-history
+                  "multi_owner_drops": 140, "multi_follower_agree_nonempty": 2000,
+                  "multi_post_drop_new_nonempty_matched": 1100,
+                  "multi_after_remove_nonvacuous_silent": 700,
                   # dynamic defaults materialised by the hook-up itself, and probes of
                   # the objects they created (attached / detached / after removal)
                   "dyn_defaults_by_hookup": 500, "dyn_nonempty_matched": 2500,
@@ -82,7 +95,10 @@ META = {
                      "reinsert_nonempty_matched": 30000,
                      "stale_hot_ops_silent": 12000, "stale_nonvacuous_silent": 200000,
                      "eq_equal_replacements_onpath": 7000, "link_equal_silent_matched": 6000,
-                     "eqd_patterns_drawn": 350,
+                     "eqd_patterns_drawn": 1200,
+                     "multi_owner_drops": 1700, "multi_follower_agree_nonempty": 24000,
+                     "multi_post_drop_new_nonempty_matched": 13000,
+                     "multi_after_remove_nonvacuous_silent": 8000,
                      "dyn_defaults_by_hookup": 6000, "dyn_nonempty_matched": 30000,
                      "dyn_detached_nonvacuous_silent": 40000,
                      "dyn_after_remove_nonvacuous_silent": 18000},
@@ -101,6 +117,8 @@ META = {
         "comparison mode; only agreement is demanded) but the final-attribute law applies to the "
         "new and the old object all the same; set algebra with foreign-but-equal objects is kept "
         "out (TraitSet reports the foreign object as removed: C07's subject)",
+        "'multi' stratum: a handler owner counts as gone once a weak reference to it is dead; a "
+        "failure after such a drop gets the key suffix '+owner-dropped'",
         "node flavour 'dyn': `del obj.link` (reset to default) is not part of the alphabet: the "
         "on_trait_change documentation does not mention deletion",
         "a whole-container assignment whose old and new contents are equal (both empty) is not a "
@@ -188,8 +206,8 @@ class ND(N):
         return self._dd("ss", set())
 
 
-# "eqd" is the stratum of its own for value-equal whole-DICT replacements (an open
-# finding on the unchanged tree, see run_history); "eq" never draws that pattern.
+# "eqd" is the stratum of its own for value-equal whole-DICT replacements (finding F44,
+# see run_history); "eq" never draws that pattern.
 NODE_CLASSES = {"plain": N, "eq": NE, "eqd": NE, "dyn": ND}
 
 
@@ -387,12 +405,21 @@ class Rec:
         self.Z = [0]     # legacy 0-argument call count
         self.O = []      # observe trait-change events
         self.C = []      # observe container events
+        # further owner objects whose bound methods are registered under the
+        # same names on the same root ("multi" stratum); None once dropped
+        self.followers = []
 
     def clear(self):
         del self.L[:]
         self.Z[0] = 0
         del self.O[:]
         del self.C[:]
+        for f in self.followers:
+            if f is not None:
+                f.clear()
+
+    def live_followers(self):
+        return [f for f in self.followers if f is not None]
 
     # bound-method flavour
     def m4(self, obj, name, old, new):
@@ -549,10 +576,19 @@ class History:
         self.flavour = flavour
         hf, _, nf = flavour.partition("+")
         self.nf = nf or "plain"
+        # "multi<k>-<fn|method>": k further owner objects register their bound
+        # methods under the same names; they are dropped (collected) mid-history
+        self.n_extra = 0
+        if hf.startswith("multi"):
+            self.n_extra = int(hf[5])
+            hf = hf.split("-")[1]
+        self.drops = 0                # owners dropped while registered
+        self.pool_at_drop = None      # serials existing at the last such drop
         self.pool = Pool(self.nf)
         self.rec = Rec()
         self.root = build(root_spec, self.pool)
         self.h4, self.h0, self.ho = self.rec.handlers(hf)
+        self.rec.followers = [Rec() for _ in range(self.n_extra)]
         # nodes created by a dynamic default that the hook-up of one of the
         # systems (not a read by the harness) materialised
         self.dyn_hook_nodes = set()
@@ -595,6 +631,11 @@ class History:
             self.root.on_trait_change(self.h4, self.pair.legacy)
             self.root.on_trait_change(self.h0, self.pair.legacy)
             self.root.observe(self.ho, self.pair.observe)
+            for f in self.rec.live_followers():
+                # bound methods are held weakly by both systems; none is kept here
+                self.root.on_trait_change(f.m4, self.pair.legacy)
+                self.root.on_trait_change(f.m0, self.pair.legacy)
+                self.root.observe(f.mo, self.pair.observe)
         except Exception as e:
             raise Violation("register/raised/%s" % type(e).__name__,
                             "registration of %r raised %r" % (self.pair.desc(), e))
@@ -609,6 +650,10 @@ class History:
             self.root.on_trait_change(self.h4, self.pair.legacy, remove=True)
             self.root.on_trait_change(self.h0, self.pair.legacy, remove=True)
             self.root.observe(self.ho, self.pair.observe, remove=True)
+            for f in self.rec.live_followers():
+                self.root.on_trait_change(f.m4, self.pair.legacy, remove=True)
+                self.root.on_trait_change(f.m0, self.pair.legacy, remove=True)
+                self.root.observe(f.mo, self.pair.observe, remove=True)
         except Exception as e:
             raise Violation("remove/raised/%s" % type(e).__name__,
                             "removal of %r raised %r" % (self.pair.desc(), e))
@@ -644,6 +689,58 @@ class History:
             for n in nodes:
                 out[ser(n)] = i
         return out
+
+    # -- several handler owners ("multi" stratum) ----------------------------------
+    def drop_owner(self, j):
+        """Forget the j-th further owner: its bound-method handlers die with it
+        (weakly held by both systems).  The other owners' registrations, made
+        under the same names on the same root, must be unaffected."""
+        fs = self.rec.followers
+        if not 0 <= j < len(fs) or fs[j] is None:
+            return False
+        wr = weakref.ref(fs[j])
+        del EXC[:]
+        self.rec.clear()
+        fs[j] = None
+        if wr() is not None:
+            gc.collect()
+        if wr() is not None:
+            self.count("multi_drop_not_collected")
+            return True
+        self.trigger = "drop-owner"
+        self.check_exc("drop-owner")
+        what = "[%s <-> %s] handler owner #%d dropped and collected" % (
+            self.pair.legacy, self.pair.observe, j)
+        r = self.rec
+        if r.L or r.Z[0] or r.O or r.C:
+            raise Violation("multi/calls-on-drop", "%s: calls %r" % (what, (r.L + r.O + r.C)[:3]))
+        if self.registered:
+            self.drops += 1
+            self.pool_at_drop = set(self.pool)
+            self.count("multi_owner_drops")
+        self.probe_phase()
+        return True
+
+    def check_followers(self, what):
+        """Every live further owner must have logged exactly what the primary
+        owner logged (same names, same root)."""
+        r = self.rec
+        for j, f in enumerate(r.followers):
+            if f is None:
+                continue
+            if f.L != r.L:
+                which, a, b = "legacy4", f.L, r.L
+            elif f.Z[0] != r.Z[0]:
+                which, a, b = "legacy0", f.Z[0], r.Z[0]
+            elif f.O != r.O or f.C != r.C:
+                which, a, b = "observe", f.O + f.C, r.O + r.C
+            else:
+                if r.L or r.O:
+                    self.count("multi_follower_agree_nonempty")
+                continue
+            raise Violation("multi/owner-logs-differ-%s/%s" % (which, self.trigger),
+                            "%s: owner #%d logged %r, the primary owner %r (same names, same "
+                            "root)" % (what, j, a, b))
 
     # -- dynamic defaults ------------------------------------------------------
     def absorb_defaults(self, target=None):
@@ -735,7 +832,11 @@ class History:
         return True
 
     def check_silent(self, what):
-        r = self.rec
+        for f in self.rec.live_followers():
+            self._check_silent(f, what + " (further owner)")
+        self._check_silent(self.rec, what)
+
+    def _check_silent(self, r, what):
         if r.L:
             raise Violation("after-remove/legacy4", "%s: legacy 4-argument handler called after "
                             "removal: %r (%s)" % (what, r.L[:3], self.pair.legacy))
@@ -794,6 +895,8 @@ class History:
                         self.count("after_remove_probes_silent")
                         if on_final and f in self.pair.finals:
                             self.count("after_remove_nonvacuous_silent")
+                            if self.drops:
+                                self.count("multi_after_remove_nonvacuous_silent")
                             self.sig("probe-after-remove", f)
                         if s in self.dyn_hook_nodes and s in self.ever_final \
                                 and f in self.pair.finals:
@@ -804,6 +907,8 @@ class History:
                 expected = ([(enc(n), f, old, old + 1)]
                             if on_final and f in self.pair.finals else [])
                 Lf, Ll, Li, Lx, Of, Ol, Ox = self.split()
+                if self.n_extra:
+                    self.check_followers(what)
                 self.compare("final", Lf, Of, expected, what)
                 if r.Z[0] != len(expected):
                     raise Violation("final/legacy0-count/%s" % self.trigger,
@@ -814,6 +919,12 @@ class History:
                                     "%s: calls for other names: legacy4 %r observe %r"
                                     % (what, Ll + Li + Lx, Ol + Ox + r.C))
                 if expected:
+                    if self.drops:
+                        self.count("multi_post_drop_nonempty_matched")
+                        if s not in self.pool_at_drop:
+                            # an object hooked after an owner was collected
+                            self.count("multi_post_drop_new_nonempty_matched")
+                            self.sig("probe-after-owner-drop", f, len(self.rec.live_followers()))
                     self.ever_final.add(s)
                     if s in self.dyn_hook_nodes:
                         self.count("dyn_nonempty_matched")
@@ -861,6 +972,8 @@ class History:
             return True
         if name == "stale":
             return self.apply_stale(op)
+        if name == "drop_owner":
+            return self.drop_owner(op[1])
         m = self.pool.get(op[1])
         if m is None:
             return False
@@ -952,6 +1065,8 @@ class History:
             self.probe_phase()
             return True
         Lf, Ll, Li, Lx, Of, Ol, Ox = self.split()
+        if self.n_extra:
+            self.check_followers(what)
         z = r.Z[0]
         nC = len(r.C)
         # (1) no operation of the alphabet changes a final attribute
@@ -1089,6 +1204,8 @@ class History:
             self.probe_phase()
             return True
         Lf, Ll, Li, Lx, Of, Ol, Ox = self.split()
+        if self.n_extra:
+            self.check_followers(what)
         self.compare("final", Lf, Of, [], what)
         self.compare("link", Ll + Lx, Ol + Ox, [], what, step)
         z, nC = r.Z[0], len(r.C)
@@ -1602,11 +1719,20 @@ def run_history(ctx, h_index, pairs):
     rng = ctx.rng("hist", h_index)
     pair = pairs[h_index % len(pairs)]
     # node flavours; "eqd" is a small stratum of its own: it alone draws value-equal
-    # whole-dict replacements, which hit an open finding on the unchanged tree and
-    # would otherwise truncate the other histories
+    # whole-dict replacements (finding F44, fixed in the repository since; the pattern
+    # keeps its stratum and its own key class so that a regression cannot truncate the
+    # other histories)
     r = rng.random()
     nf = "plain" if r < 0.42 else ("eq" if r < 0.66 else ("dyn" if r < 0.95 else "eqd"))
-    flavour = ("method" if rng.random() < 0.35 else "fn") + "+" + nf
+    hf = "method" if rng.random() < 0.35 else "fn"
+    # "multi" stratum: 1-2 further owner objects register bound methods under the same
+    # names on the same root and are dropped (collected) while the registration stands
+    n_extra = 0
+    if rng.random() < 0.09:
+        n_extra = rng.choice((1, 1, 2))
+        hf = "multi%d-%s" % (n_extra, hf)
+        ctx.count("histories_multi")
+    flavour = hf + "+" + nf
     counter = itertools.count(1)
     if rng.random() < 0.15 and nf != "dyn":
         root_spec = {"s": 0}
@@ -1616,6 +1742,14 @@ def run_history(ctx, h_index, pairs):
     nsteps = rng.randint(16, ctx.scale(20, 28))
     t_remove = rng.randint(nsteps * 5 // 10, nsteps - 2) if rng.random() < 0.9 else None
     rereg = t_remove is not None and rng.random() < 0.3
+    drop_at = {}
+    for j in range(n_extra):
+        if rng.random() < 0.8:
+            # early, so that link reassignments follow while still registered
+            step = rng.randint(1, max(1, (t_remove or nsteps) * 6 // 10))
+            while step in drop_at or step == t_remove:
+                step += 1
+            drop_at[step] = j
     ops = []
     h = None
     try:
@@ -1627,25 +1761,24 @@ def run_history(ctx, h_index, pairs):
                 op = ("unregister",)
             elif rereg and step == t_remove + 2:
                 op = ("register",)
+            elif step in drop_at:
+                op = ("drop_owner", drop_at[step])
             else:
                 op = h.gen_op(rng, counter)
             ops.append(op)
             h.apply(op)
             ctx.count("history_ops")
-            if nf == "eqd" and h.trigger == "assign-equal@dict":
-                # the stratum's pattern has been drawn and probed: stop, so that
-                # the open finding shows under its own two keys only and never as
-                # an echo in a later operation
-                ctx.count("eqd_patterns_probed")
-                break
     except Violation as v:
         spec2, ops2 = root_spec, ops
-        if ctx.viol_per_key.get(v.key, 0) < 2:
+        # a failure after a handler owner was collected while the registration stood is
+        # a class of its own (weakref-callback bookkeeping), whatever operation shows it
+        key = v.key + ("+owner-dropped" if h is not None and h.drops else "")
+        if ctx.viol_per_key.get(key, 0) < 2:
             try:
                 spec2, ops2 = shrink(pair, flavour, root_spec, ops, v.key)
             except Exception:
                 pass
-        ctx.violation(v.key, v.msg + "  [shrunk history: flavour=%s root=%r ops=%r]"
+        ctx.violation(key, v.msg + "  [shrunk history: flavour=%s root=%r ops=%r]"
                       % (flavour, spec2, ops2),
                       {"pair": pair.desc(), "pair_class": pair.cls, "flavour": flavour,
                        "root_spec": spec2, "ops": ops2, "unshrunk_ops": len(ops),
